@@ -1,6 +1,6 @@
 """C07 synthetic descriptions: safe parsing, export obeys the snprintf contract."""
 from prog import Program
-import effects, flags, snp, cap, guards, peval, progloops, errno_rule
+import effects, flags, snp, cap, guards, peval, progloops, errno_rule, union
 
 EXPORT_FUNCS = ["hwloc__export_synthetic_update_status", "hwloc__export_synthetic_add_char", "hwloc__export_synthetic_indexes",
                 "hwloc__export_synthetic_obj_attr", "hwloc__export_synthetic_obj", "hwloc__export_synthetic_memory_children",
@@ -28,13 +28,17 @@ def run(chk, tier):
     ne = errno_rule.check(chk, P, ["hwloc_backend_synthetic_init", "hwloc_synthetic_parse_attrs", "hwloc_synthetic_parse_memory_attr"],
                           {"hwloc_synthetic_parse_attrs": "int", "hwloc_synthetic_parse_memory_attr": "int"}, unit="topology-synthetic.c")
     chk.floor("R-ERRNO", "failure returns in the synthetic parser", ne, 3)
+    chk.rule("R-UNION", "the type-specific attribute union obj->attr is accessed only under a matching obj->type: every self-discriminating function is explored once per object type (21 values, product for two objects) by seeded constant propagation; guards are evaluated, not pattern-matched")
+    nun, nuf = union.run(chk, P, units=('topology-synthetic.c',))
+    chk.floor("R-UNION", "union accesses judged", nun, 15)
     chk.rule("R-SCANBOUND", "a pointer found by strchr beyond the current item is compared with the item end before use")
     ng = guards.scan_bound(chk, P, "hwloc_backend_synthetic_init", "topology-synthetic.c")
     chk.floor("R-SCANBOUND", "guarded strchr uses", ng, 1)
     chk.rule("R-PROG", "loop progress")
     nl = progloops.run(chk, P, ["topology-synthetic.c"])
     chk.floor("R-PROG", "in-scope loops", nl, 15)
-    chk.decided += ["the parser accepts or rejects without writing outside its fixed/heap arrays (bounds proved on all paths of the scoped accesses)",
+    chk.decided += ["synthetic attributes are stored into / exported from the union member matching the level's type",
+                    "the parser accepts or rejects without writing outside its fixed/heap arrays (bounds proved on all paths of the scoped accesses)",
                     "rejects with -1/errno set", "export obeys the snprintf length contract (cursor typestate over 7 functions)", "export flag words validated"]
     chk.undecided += ["faithful build (arities, index interleaving)", "export/import structural equality and fixpoint"]
     chk.trusted += ["clang 14 front end", "capacities are non-negative element counts"]
